@@ -299,7 +299,7 @@ func init() {
 		Expect: "R4.nul-skip", Key: "parse-after-nul-test", Why: "zero padding is parsed as a command"})
 	mutant(&Mutant{Name: "loadaof-no-carry", Props: []string{"C04"}, File: fAOF,
 		Old: "\t\tif len(data) > 0 {\n\t\t\tbuf = append(buf[:0], data...)\n\t\t} else if len(buf) > 0 {", New: "\t\tif len(data) > 1<<20 {\n\t\t\tbuf = append(buf[:0], data...)\n\t\t} else if len(buf) > 0 {",
-		Expect: "R4.carry", Key: "remainder-carried", Why: "a command split across two reads is dropped"})
+		Expect: "R16.carry-content", Key: "loadAOF/buf", Why: "a command split across two reads is dropped"})
 	mutant(&Mutant{Name: "loadaof-count-after-parse", Props: []string{"C04"}, File: fAOF,
 		Old: "\t\ts.aofsz += n\n\t\tdata := packet[:n]", New: "\t\tdata := packet[:n]",
 		Expect: "R4.size-accounting", Key: "aofsz-at-return", Why: "aofsz stays 0 after start-up"})
@@ -785,9 +785,9 @@ func init() {
 		New:    "func (s *Server) flushAOF(sync bool) {\n\tif !sync && len(s.aofbuf) < 4096 {\n\t\treturn\n\t}\n\tif len(s.aofbuf) > 0 {",
 		Expect: "R8.flush-complete", Key: "write-unconditional", Why: "a 'batch small writes' optimisation: the pre-write returns without writing and the reply goes out"})
 	mutant(&Mutant{Name: "neutral-flushaof-early-return-empty", Props: []string{"C08"}, File: fAOF, Neutral: true,
-		Old:    "func (s *Server) flushAOF(sync bool) {\n\tif len(s.aofbuf) > 0 {",
-		New:    "func (s *Server) flushAOF(sync bool) {\n\tif len(s.aofbuf) == 0 {\n\t\treturn\n\t}\n\tif len(s.aofbuf) > 0 {",
-		Why:    "an early return for the empty buffer"})
+		Old: "func (s *Server) flushAOF(sync bool) {\n\tif len(s.aofbuf) > 0 {",
+		New: "func (s *Server) flushAOF(sync bool) {\n\tif len(s.aofbuf) == 0 {\n\t\treturn\n\t}\n\tif len(s.aofbuf) > 0 {",
+		Why: "an early return for the empty buffer"})
 }
 
 func init() {
@@ -817,9 +817,9 @@ func init() {
 		New:    "\t\truntime.Gosched()\n\t\tdeadline.Check()\n\t} else if cursor != nil {\n\t\tcursor.Step(1)\n\t}",
 		Expect: "R11.stepper-exactly-once", Key: "nextStep", Why: "second seeded change for C11: no step on yield boundaries"})
 	mutant(&Mutant{Name: "neutral-nextstep-step-first", Props: []string{"C11"}, File: fColl, Neutral: true,
-		Old:    "\tif step&(yieldStep-1) == (yieldStep - 1) {\n\t\truntime.Gosched()\n\t\tdeadline.Check()\n\t}\n\tif cursor != nil {\n\t\tcursor.Step(1)\n\t}",
-		New:    "\tif cursor != nil {\n\t\tcursor.Step(1)\n\t}\n\tif step&(yieldStep-1) == (yieldStep - 1) {\n\t\truntime.Gosched()\n\t\tdeadline.Check()\n\t}",
-		Why:    "step before the yield check"})
+		Old: "\tif step&(yieldStep-1) == (yieldStep - 1) {\n\t\truntime.Gosched()\n\t\tdeadline.Check()\n\t}\n\tif cursor != nil {\n\t\tcursor.Step(1)\n\t}",
+		New: "\tif cursor != nil {\n\t\tcursor.Step(1)\n\t}\n\tif step&(yieldStep-1) == (yieldStep - 1) {\n\t\truntime.Gosched()\n\t\tdeadline.Check()\n\t}",
+		Why: "step before the yield check"})
 	mutant(&Mutant{Name: "subscription-queue-reuses-array", Props: []string{"C10"}, File: fPubsub,
 		Old:    "\t\t\t\tmsgs := target.msgs\n\t\t\t\ttarget.msgs = nil\n",
 		New:    "\t\t\t\tmsgs := target.msgs\n\t\t\t\ttarget.msgs = target.msgs[:0]\n",
@@ -837,7 +837,36 @@ func init() {
 		New:    "\t\tif g.Limits[0] == \"\" && g.Limits[1] == \"\" {\n\t\t\tlimits[0], limits[1] = \"\", \"\"\n\t\t\tcontinue\n\t\t}\n\t\tif i == 0 {",
 		Expect: "R12.multi-glob-unbounded", Key: "unbounded-pattern-unbounds-range", Why: "later patterns narrow the range again"})
 	mutant(&Mutant{Name: "neutral-multiglob-test-reordered", Props: []string{"C12"}, File: fSearch, Neutral: true,
-		Old:    "\t\tif g.Limits[0] == \"\" && g.Limits[1] == \"\" {\n\t\t\tlimits[0], limits[1] = \"\", \"\"\n\t\t\tbreak\n\t\t}\n\t\tif i == 0 {",
-		New:    "\t\tif g.Limits[1] == \"\" && g.Limits[0] == \"\" {\n\t\t\tlimits[1], limits[0] = \"\", \"\"\n\t\t\tbreak\n\t\t}\n\t\tif i == 0 {",
-		Why:    "the two halves of the test swapped"})
+		Old: "\t\tif g.Limits[0] == \"\" && g.Limits[1] == \"\" {\n\t\t\tlimits[0], limits[1] = \"\", \"\"\n\t\t\tbreak\n\t\t}\n\t\tif i == 0 {",
+		New: "\t\tif g.Limits[1] == \"\" && g.Limits[0] == \"\" {\n\t\t\tlimits[1], limits[0] = \"\", \"\"\n\t\t\tbreak\n\t\t}\n\t\tif i == 0 {",
+		Why: "the two halves of the test swapped"})
+}
+
+func init() {
+	fFence := "internal/server/fence.go"
+	fField := "internal/field/field.go"
+	mutant(&Mutant{Name: "field-number-validates-trimmed-text", Props: []string{"C17"}, File: fField,
+		Old:    "\t\tif gjson.Valid(data) {\n\t\t\treturn Value{kind: Number, data: data, num: num}",
+		New:    "\t\tif gjson.Valid(strings.TrimPrefix(data, \"+\")) {\n\t\t\treturn Value{kind: Number, data: data, num: num}",
+		Expect: "R17.raw-kinds-validated", Key: "ValueOf/Number@data", Why: "second seeded change for C17: +5 is stored as a Number and spliced into JSON replies"})
+	mutant(&Mutant{Name: "field-number-unvalidated", Props: []string{"C17"}, File: fField,
+		Old:    "\t\tif gjson.Valid(data) {\n\t\t\treturn Value{kind: Number, data: data, num: num}\n\t\t}",
+		New:    "\t\treturn Value{kind: Number, data: data, num: num}",
+		Expect: "R17.raw-kinds-validated", Key: "ValueOf/Number@data", Why: "0x10, 1_000 and 012 parse as floats and are not JSON numbers"})
+	mutant(&Mutant{Name: "field-special-renamed", Props: []string{"C17"}, File: fField,
+		Old:    "\t\t\t\treturn Value{kind: Number, data: \"+Inf\", num: pinf}\n\t\t\t} else {",
+		New:    "\t\t\t\treturn Value{kind: Number, data: \"Infinity\", num: pinf}\n\t\t\t} else {",
+		Expect: "R17.raw-kinds-validated", Key: "ValueOf/Number@\"Infinity\"", Why: "a special that JSON() does not quote"})
+	mutant(&Mutant{Name: "neutral-field-number-valid-local", Props: []string{"C17"}, File: fField, Neutral: true,
+		Old: "\t\tif gjson.Valid(data) {\n\t\t\treturn Value{kind: Number, data: data, num: num}\n\t\t}",
+		New: "\t\tif !gjson.Valid(data) {\n\t\t\t// not a JSON number: falls through to the string forms below\n\t\t} else {\n\t\t\treturn Value{kind: Number, data: data, num: num}\n\t\t}",
+		Why: "the validity test written negatively"})
+	mutant(&Mutant{Name: "roam-same-position-shares-list", Props: []string{"C20"}, File: fFence,
+		Old:    "\tnewNearbys := fenceMatchNearbys(s, fence, obj)\n",
+		New:    "\tnewNearbys := oldNearbys\n\tif old == nil || old.Geo().Rect() != obj.Geo().Rect() {\n\t\tnewNearbys = fenceMatchNearbys(s, fence, obj)\n\t}\n",
+		Expect: "R20.no-aliased-compaction", Key: "fenceMatchRoam→newNearbys~oldNearbys", Why: "second seeded change for C20: the two neighbour lists share one array while the dwell loop compacts one of them in place"})
+	mutant(&Mutant{Name: "neutral-roam-same-position-copies-list", Props: []string{"C20"}, File: fFence, Neutral: true,
+		Old: "\tnewNearbys := fenceMatchNearbys(s, fence, obj)\n",
+		New: "\tvar newNearbys []roamMatch\n\tif r := obj.Geo().Rect(); old != nil && r.Min == r.Max && old.Geo().Rect() == r {\n\t\tnewNearbys = append([]roamMatch(nil), oldNearbys...)\n\t} else {\n\t\tnewNearbys = fenceMatchNearbys(s, fence, obj)\n\t}\n",
+		Why: "the same shortcut (a point re-set at the same position) with a copy of the list"})
 }
